@@ -357,7 +357,72 @@ def extra_C05(ctx):
     trace_interp(ctx, "arbitrary", 400 if ctx.quick else 20000, mode="arbitrary")
 
 
+KINDS = ["raw", "nodata", "mbuff", "fixed"]
+
+
+def api_trace(ctx, kind, n, length, seed, tag):
+    import re
+    out = os.path.join(ctx.workdir, f"{tag}.{kind}.ndjson")
+    rv(["record-api", "--seed", str(seed), "--n", str(n), "--len", str(length), "--kind", kind, "--out", out], timeout=1800)
+    summ = json.load(open(out + ".summary.json"))
+    for c in summ["crashed"]:
+        ctx.violation(f"API history crashed the process ({c['how']}) on VM kind {kind}", {"kind": "api", "job": c["job"]})
+    lines = open(out).read().splitlines()
+    index = summ["index"]
+    validated = 0
+    attempt = 0
+    while lines and attempt < 6:
+        attempt += 1
+        cur = os.path.join(ctx.workdir, f"{tag}.{kind}.try{attempt}.ndjson")
+        open(cur, "w").write("\n".join(lines) + "\n")
+        r = run_tlc(f"{ctx.prop}-{tag}-{kind}-{attempt}", "TraceApi", {"Kind": kind}, spec="TraceSpec", invariants=["TraceInv"],
+                    postcondition="TraceAccepted", workers=1, timeout=900, env={"TRACE": cur}, expect_violation=True)
+        ctx.states += r.distinct
+        ctx.transitions += r.generated
+        m = re.search(r'<<"TRACE-ACCEPTED", (\d+)>>', r.out)
+        if m:
+            validated += int(m.group(1))
+            break
+        m = re.search(r'<<"TRACE-REJECTED", (\d+), (\d+)>>', r.out)
+        if not m:
+            raise ToolError(f"TraceApi {kind} failed:\n" + r.out[-2000:])
+        pos = int(m.group(1))
+        starts = [i for i, ln in enumerate(lines) if '"e":"new"' in ln]
+        si = max([i for i in starts if i < pos] or [0])
+        nxt = min([i for i in starts if i > si] or [len(lines)])
+        hist = [json.loads(x) for x in lines[si:nxt]]
+        ctx.violation(f"[{kind}] API history is not a behaviour of VmApi.tla at call {pos - si}: {lines[min(pos - 1, len(lines) - 1)][:200]}",
+                      {"kind": "api-history", "vm_kind": kind, "history": hist, "rejected_at": pos - si})
+        validated += si
+        lines = lines[:si] + lines[nxt:]
+    ctx.traces += summ["histories"] - len([v for v in ctx.violations if v["replay"].get("vm_kind") == kind])
+    ctx.evaluations += summ["histories"]
+    ctx.extra.setdefault("api_events_validated", 0)
+    ctx.extra["api_events_validated"] += validated
+    if index:
+        first = lines[:6]
+        ctx.sample({"kind": kind, "history_prefix": [json.loads(x) for x in first]})
+
+
+def run_C10(ctx):
+    from concurrent.futures import ThreadPoolExecutor
+    # design level: the complete state graph of the abstract VM, per kind
+    for kind in KINDS:
+        r = run_tlc(f"{ctx.prop}-graph-{kind}", "MC_VmApi", {"Kind": kind}, invariants=["Inv"], properties=["FailedCallIsNoOp"],
+                    workers=10, timeout=900)
+        if r.violation:
+            ctx.violation(f"VmApi design invariant violated (kind {kind})", {"kind": "tlc", "output": r.violation[:3000]})
+        ctx.add_tlc(f"MC_VmApi Kind={kind} (complete graph)", r)
+    ctx.extra["exhaustive_over_abstract_state"] = True
+    n = 250 if ctx.quick else 6000
+    with ThreadPoolExecutor(max_workers=4) as ex:
+        list(ex.map(lambda k: api_trace(ctx, k, n, 30, ctx.seed * 7 + KINDS.index(k), "hist"), KINDS))
+    ctx.nontrivial = ctx.evaluations
+
+
 CHECKS = {
+    "C10": {"level": "model_checking", "run": run_C10, "assumptions": ASSUME_COMMON,
+            "rule": "VmApi.tla explored completely (all histories over the finite abstract state: 8 programs x 4 verifiers x compiled artefacts x helper x calculator x layout) for each VM kind with invariants RunsLatestLoaded, LoadedWasVerified, NoProgIsError, NotCompiledIsError and the action property FailedCallIsNoOp; binding: seeded random histories of 30 calls over {new, set_program(valid|invalid|valid-for-other-verifier, layout), set_verifier, register_helper, set_stack_usage_calculator, jit_compile, cranelift_compile, execute x3 engines x2 packets} on real VM objects of each kind, every call and result validated by TraceApi.tla; non-trivial = histories"},
     "C05": {"level": "model_checking", "run": run_C05, "assumptions": ASSUME_COMMON,
             "rule": "MC_Safety: every program of 1..MaxLen slots over 27 instruction templates on the verifier's rule boundaries, explored under the control-flow abstraction MachineCF (all inputs, helper sets and budgets: branches, accesses and helper calls go both ways), invariant: accepted => never stuck; soundness of the abstraction checked as a refinement (Machine => MachineCF) on the concrete case families; every program is replayed through the real verifier and, if accepted, run on the real interpreter under a budget; non-trivial = accepted programs"},
     "C06": {"level": "model_checking", "run": run_C06, "assumptions": ASSUME_COMMON,
@@ -392,6 +457,16 @@ def replay(prop, path):
         rep = json.load(open(os.path.join(WORK, "replay_one.report.json")))
         print(json.dumps(rep["failures"] or rep["samples"], indent=1)[:3000])
         return 1 if rep["fail"] else 0
+    if kind == "api-history":
+        print(json.dumps(rec["history"][:rec.get("rejected_at", 0) + 1], indent=0)[:3000])
+        ctx = core.Ctx(prop, "quick", 1)
+        tmp = os.path.join(ctx.workdir, "replay_hist.ndjson")
+        open(tmp, "w").write("\n".join(json.dumps(e) for e in rec["history"]) + "\n")
+        r = run_tlc(f"{prop}-replay", "TraceApi", {"Kind": rec["vm_kind"]}, spec="TraceSpec", invariants=["TraceInv"],
+                    postcondition="TraceAccepted", workers=1, timeout=600, env={"TRACE": tmp}, expect_violation=True)
+        ok = "TRACE-ACCEPTED" in r.out
+        print("recorded history is " + ("accepted" if ok else "REJECTED") + " by VmApi.tla (re-record with: rv record-api)")
+        return 0 if ok else 1
     if kind == "trace":
         ctx = core.Ctx(prop, "quick", 1)
         tmp = os.path.join(ctx.workdir, "replay_case.ndjson")
@@ -451,5 +526,10 @@ MANIFEST_TEXT.update({
     "C06": {"technique": "TLA+ WellFormed predicate evaluated by TLC on rule-boundary byte strings; verdicts replayed through every loading entry point",
             "text": "Each enumerated byte string gets its verdict from the named rules of Verifier.tla (rule independence checked: every rule is the sole reason of some refusal); the real verifier must return the same verdict through new() and set_program() of all four VM kinds, as an error value.",
             "note": NOTE_COMMON},
+})
+MANIFEST_TEXT.update({
+    "C10": {"technique": "finite-state TLA+ life-cycle model explored completely by TLC; recorded API histories validated against it by TLC (trace validation)",
+            "text": "The abstract VM state is finite, so TLC covers every history of the design, not a bounded sample; the real VM objects are bound to it by validating thousands of random call histories (arguments and results) of each VM kind against the specification, which tracks every state consistent with the observations where the statement leaves the mechanism open.",
+            "note": NOTE_COMMON + " The default verifier cannot be re-installed through the public API, so set_verifier(default) is not exercised."},
 })
 NOT_APPLICABLE = {}
